@@ -159,7 +159,7 @@ def run_search(mod, tier, seed, shard, nshards, args) -> dict:
     from hypothesis import given
     from hypothesis import seed as hseed
 
-    total = mod.budget(tier)
+    total = int(mod.budget(tier) * float(args.get("budget_scale", 1)))
     n = total // nshards + (1 if shard < total % nshards else 0)
     if n <= 0:
         return col.result()
